@@ -647,12 +647,96 @@ def translate_build_column_map(src):
             "      (Dict.upsert st.1 r.1 (fun _ => p.2), r.2)) ([], [])).1"]
 
 
+# ---------------------------------------------------------------------------------------------
+# csv._infer_type and csv._read_csv_from_file
+# ---------------------------------------------------------------------------------------------
+def translate_csv(src):
+    tree = ast.parse(src)
+    f = find_func(tree, "_infer_type")
+    arg = f.args.args[0].arg
+    body = [s for s in f.body if not (isinstance(s, ast.Expr) and isinstance(s.value, ast.Constant))]
+
+    def chain(stmts, stripped):
+        if not stmts:
+            raise TranslateError("_infer_type: falls off the end")
+        s, rest = stmts[0], stmts[1:]
+        if isinstance(s, ast.If) and not s.orelse and len(s.body) == 1 and isinstance(s.body[0], ast.Return):
+            test = ast.unparse(s.test).replace('"', "'")
+            if test != f"not {arg} or {arg}.strip() == ''" or ast.unparse(s.body[0].value) != "None":
+                raise TranslateError("_infer_type: unexpected blank test " + test)
+            return f"if O.blank {arg} then O.none\n  else " + chain(rest, stripped)
+        if isinstance(s, ast.Assign) and ast.unparse(s) == f"{arg} = {arg}.strip()":
+            return chain(rest, True)
+        if isinstance(s, ast.Try) and len(s.body) == 1 and isinstance(s.body[0], ast.Return) and len(s.handlers) == 1 \
+                and ast.unparse(s.handlers[0].type) == "ValueError" and all(isinstance(x, ast.Pass) for x in s.handlers[0].body) \
+                and not s.orelse and not s.finalbody:
+            call = ast.unparse(s.body[0].value)
+            if call not in (f"int({arg})", f"float({arg})"):
+                raise TranslateError("_infer_type: unexpected conversion " + call)
+            if not stripped:
+                raise TranslateError("_infer_type: conversion before strip()")
+            fn = "int?" if call.startswith("int") else "float?"
+            return f"(match O.{fn} {arg} with\n    | some r => r\n    | none => " + chain(rest, stripped) + ")"
+        if isinstance(s, ast.Return) and ast.unparse(s.value) == arg:
+            if not stripped:
+                raise TranslateError("_infer_type: unstripped text returned")
+            return f"O.text {arg}"
+        raise TranslateError("_infer_type: statement " + ast.unparse(s)[:60])
+    infer = ("/-- translated from `csv._infer_type` (`O` gives Python's scalar semantics on a cell text: blank test, `int()`, `float()` with\n"
+             "    `none` = ValueError, the stripped text) -/\n"
+             f"def inferTypeT {{τ ν : Type}} (O : Serif.Csv.Oracle τ ν) ({arg} : τ) : ν :=\n  " + chain(body, False))
+
+    # ---- _read_csv_from_file: the part after `all_rows = list(reader)`
+    g = find_func(tree, "_read_csv_from_file")
+    txt = [ast.unparse(s) for s in g.body if not (isinstance(s, ast.Expr) and isinstance(s.value, ast.Constant))
+           and not isinstance(s, (ast.Import, ast.ImportFrom))]
+    want = [
+        "reader = csv.reader(file_obj, delimiter=delimiter)",
+        "all_rows = list(reader)",
+        "if not all_rows:\n    return Table()",
+        "if has_header:\n    header = all_rows[0]\n    rows = all_rows[1:]\nelse:\n    header = [f'col_{i}' for i in range(len(all_rows[0]))]\n    rows = all_rows",
+        "if not rows:\n    return Table([Vector([], name=col) for col in header])",
+        "num_cols = len(header)",
+        "columns = []",
+        "for col_idx in range(num_cols):\n    column_data = []\n    for row in rows:\n        if col_idx < len(row):\n            value = row[col_idx]\n"
+        "            column_data.append(_infer_type(value))\n        else:\n            column_data.append(None)\n"
+        "    columns.append(Vector(column_data, name=header[col_idx]))",
+        "return Table(columns)",
+    ]
+    if txt != want:
+        for a, b in zip(txt, want):
+            if a != b:
+                raise TranslateError("_read_csv_from_file: statement differs from the understood shape: " + a[:70].replace("\n", " / "))
+        raise TranslateError("_read_csv_from_file: statement count")
+    read = ("/-- translated from `csv._read_csv_from_file` after `all_rows = list(reader)`: empty input, header / generated names, header-only\n"
+            "    input, and the two nested loops (`col_idx < len(row)` → `_infer_type(row[col_idx])`, else None) as maps -/\n"
+            "def readCsvT {τ ν : Type} (O : Serif.Csv.Oracle τ ν) (has_header : Bool) (all_rows : List (List τ)) : List (Serif.Csv.Column ν) :=\n"
+            "  if all_rows.isEmpty then []\n"
+            "  else\n"
+            "    let header : List String := if has_header then (all_rows.headD []).map O.raw\n"
+            "      else (List.range (all_rows.headD []).length).map (fun i => \"col_\" ++ toString i)\n"
+            "    let rows : List (List τ) := if has_header then all_rows.drop 1 else all_rows\n"
+            "    if rows.isEmpty then header.map (fun col => { name := col, data := [] })\n"
+            "    else\n"
+            "      let num_cols := header.length\n"
+            "      (List.range num_cols).map (fun col_idx =>\n"
+            "        let column_data := rows.map (fun row =>\n"
+            "          if col_idx < row.length then\n"
+            "            match row[col_idx]? with\n"
+            "            | some value => inferTypeT O value\n"
+            "            | none => O.none\n"
+            "          else O.none)\n"
+            "        { name := header.getD col_idx \"\", data := column_data })")
+    return [infer, read]
+
+
 def generate(src_dir):
     """-> (lean text, list of (item, error))"""
     parts, errors = [], []
     items = [("typing", lambda: translate_typing(open(os.path.join(src_dir, "typing.py")).read())),
              ("slice_length", lambda: [translate_slice_length(open(os.path.join(src_dir, "typeutils.py")).read())]),
              ("resolve_binary_name", lambda: [translate_resolve_binary_name(open(os.path.join(src_dir, "table.py")).read())]),
+             ("csv", lambda: translate_csv(open(os.path.join(src_dir, "csv.py")).read())),
              ("build_column_map", lambda: translate_build_column_map(open(os.path.join(src_dir, "table.py")).read())),
              ("fingerprint", lambda: translate_fingerprint(open(os.path.join(src_dir, "vector.py")).read(),
                                                            open(os.path.join(src_dir, "table.py")).read()))]
@@ -664,7 +748,7 @@ def generate(src_dir):
             parts.append(f"-- {name}: not translated ({type(ex).__name__})")
     text = ("/- GENERATED by harness/py2lean.py from /repo's working tree — do not edit.\n"
             "   Python source translated statement by statement; see Serif/Props/Tie.lean for the equivalence theorems. -/\n"
-            "import Serif.Gen.PySupport\n\nnamespace Serif.Gen.T\nopen Serif\n\n" + "\n\n".join(parts) + "\n\nend Serif.Gen.T\n")
+            "import Serif.Gen.PySupport\nimport Serif.Model.Csv\n\nnamespace Serif.Gen.T\nopen Serif\n\n" + "\n\n".join(parts) + "\n\nend Serif.Gen.T\n")
     return text, errors
 
 
